@@ -1174,6 +1174,10 @@ func loadParamBytes(input []byte, index int) ([]byte, error) {
 		return nil, errors.New("invalid offset")
 	}
 
+	if dataOffset > uint64(len(input)) {
+		return nil, errors.New("invalid offset")
+	}
+
 	start := dataOffset + 32
 	if start > uint64(len(input)) {
 		return nil, errors.New("invalid param length")
@@ -1182,6 +1186,10 @@ func loadParamBytes(input []byte, index int) ([]byte, error) {
 	dataLen, overflow := uint256.NewInt(0).SetBytes32(input[dataOffset:start]).Uint64WithOverflow()
 	if overflow {
 		return nil, errors.New("invalid length")
+	}
+
+	if dataLen > uint64(len(input))-start {
+		return nil, errors.New("invalid param length")
 	}
 
 	end := start + dataLen
